@@ -1,6 +1,9 @@
 F = 'xenium/vyukov_bounded_queue.hpp'
 MEM = ['cells', 'index_mask', 'enqueue_pos', 'dequeue_pos']
 
+# original (uncut) retry loop: a ghost iteration counter at the head of the body turns 'returns within one iteration' into a named, traceable obligation
+TICK = [(r'for \(;;\) \{', 'for (;;) { XV_LOOP_TICK();', 'tick')]
+
 def push_src(sid, weak, cut):
     name = 'vbq_do_try_push_%s%s' % ('w' if weak else 's', '_cut' if cut else '')
     d = dict(id=sid, file=F, sig=r'template <bool Weak, class\.\.\. Args>\s*bool do_try_push\(Args&&\.\.\. args\)',
@@ -12,6 +15,7 @@ def push_src(sid, weak, cut):
              must_fire={'subst:Weak': 1, 'subst:assign_value': 1, 'A_LOAD': 5, 'A_CASW': 1, 'A_STORE': 1,
                         'member:cells': 1, 'member:index_mask': 2, 'member:enqueue_pos': 4, 'member:dequeue_pos': 1})
     if cut: d['cut_loops'] = {0: 'PUSH'}; d['must_fire']['cut_loop'] = 1
+    else: d['post_subst'] = TICK; d['must_fire']['subst:tick'] = 1
     return d
 
 def pop_src(sid, weak, cut):
@@ -31,6 +35,7 @@ def pop_src(sid, weak, cut):
                         'A_LOAD': 5, 'A_CASW': 1, 'A_STORE': 1, 'reference': 1,
                         'member:cells': 1, 'member:index_mask': 2, 'member:enqueue_pos': 1, 'member:dequeue_pos': 4})
     if cut: d['cut_loops'] = {0: 'POP'}; d['must_fire']['cut_loop'] = 1
+    else: d['post_subst'] = TICK; d['must_fire']['subst:tick'] = 1
     return d
 
 LAMBDA = r'\[&result\]\(T& v\)\s*\{[^{}]*\},\s*\[\]\(\)\s*\{[^{}]*\}'
@@ -78,8 +83,8 @@ for n in QUICK:
             add('%s_int%d' % (op.replace('_strong', '_s').replace('_weak', '_w'), m), 'h_%s_int' % op, n, 'quick', mode='INT', defs={'ENV_MODE': m},
                 note='retry loop cut; environment: ' + ('positions only advance, occupancy stays within 0..N, sequences arbitrary' if m else 'anything'))
 RUNS.append(dict(id='lambdas', entry='h_lambdas', cls='unbounded', defs={'N': 2}))
-add('push_d', 'h_push_default', 4, 'quick', unwindset=['vbq_do_try_push_s.0:2'], note='try_push with the default policy')
-add('pop_d', 'h_pop_default', 4, 'quick', unwindset=['vbq_do_try_pop_s.0:2'], note='try_pop with the default policy')
+add('push_d', 'h_push_default', 2, 'quick', unwindset=['vbq_do_try_push_s.0:2'], note='try_push with the default policy')
+add('pop_d', 'h_pop_default', 2, 'quick', unwindset=['vbq_do_try_pop_s.0:2'], note='try_pop with the default policy')
 
 OBLS = {
   'vbq.push_strong.full_iff': dict(deciding=True, text='[SEQ] try_push_strong fails iff enq-deq == N, and then positions and every cell are unchanged'),
@@ -89,6 +94,7 @@ OBLS = {
   'vbq.weak.no_wrong_success': dict(deciding=True, text='[SEQ+INT, spurious CAS failure allowed] a weak operation that fails has changed nothing (no CAS succeeded, no store, no construction/destruction, argument/result untouched); one that succeeds has the effect of the strong operation; it never succeeds on a full (push) / empty (pop) queue'),
   'vbq.weak.seq_no_spurious': dict(deciding=False, text='[SEQ] without pending operations the weak variants fail only when full / empty (documentation of try_push_weak / try_pop_weak)'),
   'vbq.weak.terminates': dict(deciding=True, text='[SOLO] try_push_weak / try_pop_weak (documented lock-free) return after at most one loop iteration from every mid-operation state when running alone, for all 64-bit positions'),
+  'vbq.strong.seq_terminates': dict(deciding=True, text='[SEQ] without interference the strong operations return within one loop iteration from every Inv_V state'),
   'vbq.dtor.owns': dict(deciding=True, text='[SEQ] the destructor destroys exactly the objects of positions [deq,enq), each once, and nothing else'),
   'vbq.ctor.establishes': dict(deciding=True, text='the constructor allocates size cells and establishes Inv_V with deq = enq = 0 without constructing any T'),
   'vbq.cell.lifetime': dict(deciding=True, text='[SEQ] placement new only into storage holding no T, reinterpret_cast<T&> / ~T only on storage holding a live T (no double construction, no double destruction, no read of dead storage)'),
@@ -104,7 +110,7 @@ OBLS = {
 }
 LOOP_OBL = {'PUSH': 'vbq.push.commit', 'POP': 'vbq.pop.commit'}
 REPLAYS = {k: dict(src='replay_vbq.cpp') for k in ['vbq.push_strong.full_iff', 'vbq.pop_strong.empty_iff', 'vbq.fifo', 'vbq.inv.preserved', 'vbq.weak.no_wrong_success',
-           'vbq.weak.seq_no_spurious', 'vbq.weak.terminates', 'vbq.dtor.owns', 'vbq.cell.lifetime', 'vbq.push.accepted_owned', 'vbq.push.rejected_stays_with_caller', 'vbq.pop.destroys_once']}
+           'vbq.weak.seq_no_spurious', 'vbq.weak.terminates', 'vbq.strong.seq_terminates', 'vbq.dtor.owns', 'vbq.cell.lifetime', 'vbq.push.accepted_owned', 'vbq.push.rejected_stays_with_caller', 'vbq.pop.destroys_once']}
 CANARIES = []
 for t in ('push_s', 'push_w', 'push_d'): CANARIES += [t + x for x in ('.full', '.ok', '.ok_wrap', '.ok_becomes_full')]
 for t in ('pop_s', 'pop_w', 'pop_d'): CANARIES += [t + x for x in ('.empty', '.ok', '.ok_wrap', '.ok_from_full')]
@@ -157,3 +163,4 @@ UNIT = dict(
   ],
   runs=RUNS, obligations=OBLS, loop_obligation=LOOP_OBL, replays=REPLAYS, canaries=CANARIES,
 )
+
